@@ -55,9 +55,10 @@ func (g *gateImpl) SetCount(count uint16) error {
 func (g *gateImpl) Reset() {
 	g.gateCondition.L.Lock()
 	defer g.gateCondition.L.Unlock()
-	if !g.canceled {
-		g.arrived = 0
-	}
+	// arrivals are re-armed for a cancelled gate as well (it stays cancelled until Clear):
+	// otherwise an arrival on a gate that was cancelled before being reset finds
+	// arrived == count and is reported as ErrGateIntegrity, which callers treat as fatal
+	g.arrived = 0
 }
 
 // ErrGateIntegrity ...
